@@ -46,6 +46,10 @@ pub enum ArrSpec {
     FromTrace { trace: Vec<u64>, prefix_jobs: usize, extrapolating: bool },
     /// `vals.collect::<Curve>()` (FromIterator: makes the delta-min vector monotone)
     CurveFromIter { vals: Vec<u64>, extrapolating: bool },
+    /// `ApproximatedPoisson::new(rate_milli / 1000, eps_milli / 1000)`: the only model whose bound is 0
+    /// on short intervals and positive later; no sequence semantics (probabilistic), used for the
+    /// steps / totality checks only
+    Poisson { rate_milli: u64, eps_milli: u64 },
 }
 
 /// running maximum
@@ -117,6 +121,7 @@ impl ArrSpec {
             ArrSpec::CurveFromAcp { inner } => Rc::new(Curve::from(&inner.build_acp())),
             ArrSpec::CurveFromPeriodic { t } => Rc::new(Curve::from(Periodic::new(d(*t)))),
             ArrSpec::CurveFromSporadic { t, j } => Rc::new(Curve::from(Sporadic::new(d(*t), d(*j)))),
+            ArrSpec::Poisson { rate_milli, eps_milli } => Rc::new(arrival::ApproximatedPoisson::new(*rate_milli as f64 / 1000.0, *eps_milli as f64 / 1000.0)),
             ArrSpec::CurveFromIter { vals, extrapolating } => {
                 let c: Curve = vals.iter().map(|x| d(*x)).collect();
                 if *extrapolating {
@@ -242,6 +247,7 @@ impl ArrSpec {
             ArrSpec::CurveOfJobs { inner, .. } | ArrSpec::CurveOfUntil { inner, .. } | ArrSpec::AcpOf { inner, .. } | ArrSpec::CurveFromAcp { inner } => inner.scale(),
             ArrSpec::FromTrace { trace, .. } => trace.last().copied().unwrap_or(1).max(1),
             ArrSpec::CurveFromIter { vals, .. } => vals.iter().copied().max().unwrap_or(1).max(1),
+            ArrSpec::Poisson { rate_milli, .. } => (1000 / (*rate_milli).max(1)).max(1),
         }
     }
 }
@@ -353,6 +359,7 @@ impl ArrSpec {
             }
             ArrSpec::Curve { dmin, .. } | ArrSpec::AcpDirect { dmin, .. } => curve_events(dmin, t0, horizon, ch, MAXEV),
             ArrSpec::CurveFromIter { vals, .. } => curve_events(&running_max(vals), t0, horizon, ch, MAXEV),
+            ArrSpec::Poisson { .. } => panic!("harness bug: a Poisson model has no admissible-sequence semantics"),
             ArrSpec::Jittered { inner, j } | ArrSpec::Propagated { inner, j } => {
                 let base = inner.events(t0 - *j as i64, horizon, ch);
                 let mut v: Vec<i64> = base
@@ -522,12 +529,14 @@ pub struct ArrGen {
     pub acp: bool,
     /// allow non-super-additive prefixes
     pub loose: bool,
+    /// allow ApproximatedPoisson leaves (only for checks that never ask for event sequences)
+    pub poisson: bool,
     pub depth: u32,
 }
 
 impl ArrGen {
     pub fn basic(tmax: u64) -> ArrGen {
-        ArrGen { tmax, never: false, plateau_end: false, plain_curves: false, derived: false, acp: false, loose: false, depth: 1 }
+        ArrGen { tmax, never: false, plateau_end: false, plain_curves: false, derived: false, acp: false, loose: false, poisson: false, depth: 1 }
     }
 }
 
@@ -580,6 +589,10 @@ pub fn leaf_strategy(g: ArrGen) -> BoxedStrategy<ArrSpec> {
     }
     if g.never {
         opts.push((1, Just(ArrSpec::Never).boxed()));
+    }
+    if g.poisson {
+        // small means only: the quantile search re-evaluates the pmf from scratch for every candidate
+        opts.push((1, (1u64..=200, 1u64..=400).prop_map(|(rate_milli, eps_milli)| ArrSpec::Poisson { rate_milli, eps_milli }).boxed()));
     }
     if g.acp {
         opts.push((
@@ -648,13 +661,14 @@ pub fn arr_strategy(g: ArrGen) -> BoxedStrategy<ArrSpec> {
             opts.push((
                 1,
                 (inner.clone(), 1usize..14)
-                    .prop_map(|(i, n)| ArrSpec::CurveOfJobs { inner: i.boxed(), n })
+                    // (a delta-min Curve cannot represent a process that never releases anything)
+                    .prop_map(|(i, n)| if i.never_arrives() { i } else { ArrSpec::CurveOfJobs { inner: i.boxed(), n } })
                     .boxed(),
             ));
             opts.push((
                 1,
                 (inner.clone(), 1..=6 * tmax)
-                    .prop_map(|(i, h)| ArrSpec::CurveOfUntil { inner: i.boxed(), h })
+                    .prop_map(|(i, h)| if i.never_arrives() { i } else { ArrSpec::CurveOfUntil { inner: i.boxed(), h } })
                     .boxed(),
             ));
         }
@@ -668,7 +682,7 @@ pub fn arr_strategy(g: ArrGen) -> BoxedStrategy<ArrSpec> {
             opts.push((
                 1,
                 (inner.clone(), 1..=6 * tmax)
-                    .prop_map(|(i, h)| ArrSpec::CurveFromAcp { inner: ArrSpec::AcpOf { inner: i.boxed(), h }.boxed() })
+                    .prop_map(|(i, h)| if i.never_arrives() { i } else { ArrSpec::CurveFromAcp { inner: ArrSpec::AcpOf { inner: i.boxed(), h }.boxed() } })
                     .boxed(),
             ));
         }
